@@ -545,6 +545,7 @@ func errS(e *tcpip.Error) string {
 func (p *pair) writer(s *side, wg *sync.WaitGroup) {
 	defer wg.Done()
 	off := 0
+	wpolled := false
 	we, ch := waiter.NewChannelEntry(nil)
 	s.wq.EventRegister(&we, waiter.EventOut|waiter.EventHUp|waiter.EventErr)
 	defer s.wq.EventUnregister(&we)
@@ -563,7 +564,10 @@ func (p *pair) writer(s *side, wg *sync.WaitGroup) {
 			if err != nil && err != tcpip.ErrWouldBlock {
 				return
 			}
+			_ = wpolled
 			if rem > 0 {
+				// (the writable notification is threshold based - sent when the send buffer drains below half - so space found
+				// by polling without a notification proves nothing: the writer keeps polling)
 				select {
 				case <-ch:
 				case <-time.After(50 * time.Millisecond):
@@ -599,16 +603,32 @@ func (p *pair) reader(s *side, wg *sync.WaitGroup) {
 		p.nap(time.Duration(s.cfg.ReadStartMS) * time.Millisecond)
 	}
 	total := 0
+	polled := false
 	for {
 		v, _, err := s.ep.Read(nil)
 		if err == tcpip.ErrWouldBlock {
+			// the application sleeps on the readiness notification; the 2 s poll is only a rescue, and a rescue that finds
+			// something to read for which no notification arrives is logged (`missedwake`): an application that blocks on the
+			// waiter queue alone would sleep for ever
+			polled = false
 			select {
 			case <-ch:
-			case <-time.After(50 * time.Millisecond):
+			case <-time.After(2 * time.Second):
+				polled = true
 			case <-p.done:
 				return
 			}
 			continue
+		}
+		if polled {
+			polled = false
+			select {
+			case <-ch:
+			case <-time.After(300 * time.Millisecond):
+				p.log.add(M{"ev": "missedwake", "e": s.name, "what": "readable", "at": total})
+			case <-p.done:
+				return
+			}
 		}
 		if err != nil {
 			if err == tcpip.ErrClosedForReceive {
